@@ -48,7 +48,7 @@ COMPONENTS = {
                   "file objects (SimFile)", "evaluation failures (EvalPoint)", "process / PYTHONHASHSEED (fresh interpreters)"],
     "stubbed": [],
 }
-EXPECTED_PROBES = ["same-writer-different-species-counts", "evaluation-fails-inside-library-code", "build-drop-churn", "structured-boundary-pattern", "python-api-model-in-pool", "burst-of-evaluations-on-one-multi-range-function", "identical-form-text-other-helper-in-pool", "eval-exactly-at-range-boundary", "switch-inside-write", "two-tasks-same-handle", "write-after-faulted-write", "excel-write-across-clock-jump",
+EXPECTED_PROBES = ["model-and-its-mirror-image-same-writer", "same-writer-different-species-counts", "evaluation-fails-inside-library-code", "build-drop-churn", "structured-boundary-pattern", "python-api-model-in-pool", "burst-of-evaluations-on-one-multi-range-function", "identical-form-text-other-helper-in-pool", "eval-exactly-at-range-boundary", "switch-inside-write", "two-tasks-same-handle", "write-after-faulted-write", "excel-write-across-clock-jump",
                    "backwards-clock-jump", "hashseed-comparison", "underspecified-eam-under-hashseeds", "shared-subform-different-args",
                    "same-form-name-different-formula-in-pool", "rebuild-same-model", "write-twice-same-handle", "eval-between-rows-of-own-write"]
 
@@ -231,6 +231,8 @@ def gen_scenario(seed, tier="quick", mode=None):
     rng = random.Random(seed)
     if mode == "same-writer":
         return gen_same_writer_scenario(rng, seed, tier)
+    if mode == "mirrored":
+        return gen_mirrored_scenario(rng, seed, tier)
     hs_run = rng.random() < 0.15
     opts = {"nr_max": 12, "nrho_max": 6, "max_species": 4, "forms_prob": 0.8, "tables_prob": 0.3, "species_override_prob": 0.35,
             # some functions fail by themselves beyond a separation inside the grid: a failed evaluation *inside* the
@@ -436,6 +438,38 @@ def gen_same_writer_scenario(rng, seed, tier):
     if rng.random() < 0.5:
         ops.append({"op": "write", "h": "t0h0"})
     return {"property": PROP, "seed": seed, "tier": tier, "potsim": 1, "models": models, "model_tags": ["same-writer"] * len(models),
+            "switch_prob": 0.0, "schedule": None, "sched_seed": rng.randrange(1 << 30), "fp_kind": "simfile",
+            "clock_start": 1700000000.0 + rng.randrange(0, 86400 * 365), "shared": [], "tasks": [ops], "hashseeds": None}
+
+
+def gen_mirrored_scenario(rng, seed, tier):
+    """Additional scenarios (appended): a model and its mirror image - every function without range markers wrapped
+    in product(as.constant -1.0, ...), one function being as.zero - for the same writer, written one after the other.
+    The two tables hold the same magnitudes with opposite signs, +0.0 against -0.0 included: state keyed on values
+    that compare equal but print differently (memoised formatting, value caches) collides here."""
+    target = rng.choice(mg.ALL_TARGETS)
+    base = mg.gen_model(rng, {"targets": [target], "nr_max": 10, "nrho_max": 5, "max_species": 3, "underspecified_prob": 0.0,
+                              "forms_prob": 0.3, "tables_prob": 0.1})
+    fe = mg.function_entries(base)
+    if fe:
+        si, ei, _ = rng.choice(fe)
+        base["sections"][si]["entries"][ei][1] = "as.zero"
+    mirror = copy.deepcopy(base)
+    for si, ei, _ in fe:
+        d = mirror["sections"][si]["entries"][ei][1]
+        if not _BOUNDARY.search(d):
+            mirror["sections"][si]["entries"][ei][1] = "product(as.constant -1.0, %s)" % d
+    models = [base, mirror]
+    order = [0, 1] if rng.random() < 0.5 else [1, 0]
+    ops = []
+    for i, m in enumerate(order):
+        ops.append({"op": "build", "h": "t0h%d" % i, "m": m})
+        ops.append({"op": "write", "h": "t0h%d" % i})
+    ops.append({"op": "write", "h": "t0h0"})
+    for _ in range(rng.randint(0, 4)):
+        ops.append({"op": "eval", "h": "t0h%d" % rng.randrange(2), "fi": rng.randrange(64), "what": rng.choice(["energy", "force"]),
+                    "ri": rng.randrange(64), "off": rng.choice([0.0, 0.5])})
+    return {"property": PROP, "seed": seed, "tier": tier, "potsim": 1, "models": models, "model_tags": ["mirrored-base", "mirrored"],
             "switch_prob": 0.0, "schedule": None, "sched_seed": rng.randrange(1 << 30), "fp_kind": "simfile",
             "clock_start": 1700000000.0 + rng.randrange(0, 86400 * 365), "shared": [], "tasks": [ops], "hashseeds": None}
 
@@ -1063,6 +1097,8 @@ def _probes(sc, refs, res, extra, bump):
             bump("probe:structured-boundary-pattern")
     if "same-writer" in sc.get("model_tags", []):
         bump("probe:same-writer-different-species-counts")
+    if "mirrored" in sc.get("model_tags", []):
+        bump("probe:model-and-its-mirror-image-same-writer")
     if "other-helper" in sc.get("model_tags", []):
         bump("probe:identical-form-text-other-helper-in-pool")
     if any(op.get("own") and op.get("eps") == 0.0 for ops in sc["tasks"] for op in ops if op["op"] == "eval"):
@@ -1084,6 +1120,10 @@ def jobs(seed, tier, n=None):
     # additional same-writer scenarios (10 % on top), appended so that the ordinary scenarios are unchanged
     for i in range(max(2, n_jobs // 10)):
         yield {"seed": run_seed(seed, PROP + "/same-writer", i), "tier": tier, "index": n_jobs + i, "per_job": per, "mode": "same-writer"}
+    # additional mirrored scenarios (5 % on top), appended likewise
+    n_sw = max(2, n_jobs // 10)
+    for i in range(max(2, n_jobs // 20)):
+        yield {"seed": run_seed(seed, PROP + "/mirrored", i), "tier": tier, "index": n_jobs + n_sw + i, "per_job": per, "mode": "mirrored"}
 
 
 def replay(scenario, scratch):
